@@ -120,6 +120,19 @@ theorem alookup_append (m : List (α × β)) (k k' : α) (v : β) :
     · simp only [ha, if_false]
       exact ih
 
+theorem alookup_mem (m : List (α × β)) (k : α) (v : β) (h : alookup m k = some v) : (k, v) ∈ m := by
+  induction m with
+  | nil => simp [alookup] at h
+  | cons p rest ih =>
+    obtain ⟨a, b⟩ := p
+    unfold alookup at h
+    by_cases ha : a = k
+    · simp only [ha, if_true] at h
+      injection h with h
+      rw [ha, h]; exact List.mem_cons_self ..
+    · simp only [ha, if_false] at h
+      exact List.mem_cons_of_mem _ (ih h)
+
 theorem alookup_erase_append_self (m : List (α × β)) (k : α) (v : β) :
     alookup (aerase m k ++ [(k, v)]) k = some v := by
   rw [alookup_append, alookup_aerase_self]; simp
